@@ -3,6 +3,7 @@ package main
 import (
 	"encoding/json"
 	"fmt"
+	"strconv"
 	"strings"
 )
 
@@ -23,6 +24,7 @@ type pred struct {
 	P    *pred   `json:"p"`
 	Scol string  `json:"scol"`
 	W    []*pred `json:"w"`
+	ILit bool    `json:"ilit"` // constants of a FLOAT comparison written as INTEGER literals
 }
 
 type stmt struct {
@@ -43,6 +45,7 @@ type schema struct {
 	Name string  `json:"name"`
 	T1   []index `json:"t1"`
 	T2   []index `json:"t2"`
+	T3   []index `json:"t3"`
 }
 
 type history struct {
@@ -59,11 +62,14 @@ type history struct {
 	TxRemoved []int   `json:"txRemoved"`
 	UniqueOK  bool    `json:"uniqueOK"`
 	Schemas   []int   `json:"schemas"`
+	T3        int     `json:"t3"`
+	T3Rows    [][]int `json:"t3rows"`
 }
 
 type ordKey struct {
-	Col  string
-	Desc bool
+	Col   string
+	Desc  bool
+	Nulls string // "", "first", "last"
 }
 
 type shape struct {
@@ -73,7 +79,7 @@ type shape struct {
 	RawOrder json.RawMessage `json:"order"`
 	Limit    int             `json:"limit"`
 	Offset   int             `json:"offset"`
-	By       string          `json:"by"`
+	By       []string        `json:"by"`
 	Aggs     [][]string      `json:"aggs"`
 	Having   bool            `json:"having"`
 
@@ -87,6 +93,7 @@ type join struct {
 }
 
 type query struct {
+	Tbl   string  `json:"tbl"`
 	Join  []join  `json:"join"`
 	Where []*pred `json:"where"`
 	Shape shape   `json:"shape"`
@@ -120,6 +127,7 @@ type casesFile struct {
 	Preds     []*pred   `json:"preds"`
 	Queries   []query   `json:"queries"`
 	NSingle   int       `json:"nsingle"`
+	NJoin     int       `json:"njoin"`
 	Cases     []kase    `json:"cases"`
 	Parts     []part    `json:"parts"`
 }
@@ -134,7 +142,7 @@ func (cf *casesFile) fixup() error {
 				return fmt.Errorf("query %d order: %v", i+1, err)
 			}
 			for _, o := range raw {
-				sh.order = append(sh.order, ordKey{Col: o[0].(string), Desc: o[1].(bool)})
+				sh.order = append(sh.order, ordKey{Col: o[0].(string), Desc: o[1].(bool), Nulls: o[2].(string)})
 			}
 		case "group":
 			if err := json.Unmarshal(sh.RawOrder, &sh.groupOrd); err != nil {
@@ -157,21 +165,24 @@ type conc struct {
 	strs      []string // code 0..3
 }
 
+// codes 0..5; in every table 1 is a prefix of 2, 3 of 4, and [2]+[5] = [1]+[4] (('ab','c') vs ('a','bc'))
 var strTables = [][]string{
-	{"", "a", "ab", "b"},
-	{"", "K", "K k", "Zz"},
-	{"", "aaaaaaa", "aaaaaaab", "aaaaaab"},
+	{"", "a", "ab", "b", "bc", "c"},
+	{"", "K", "KL", "L", "LM", "M"},
+	{"", "aaaaaaa", "aaaaaaab", "b", "baaaaaaa", "baaaaaaab"}, // [2]+[5] != [1]+[4] here: long keys instead
 }
 var scales = []int64{1, 7, 1 << 33}
 
 // colType: "int" (id, id2, counts), "sint" (a, x: scaled), "str" (b, y), "bool" (c)
 func colType(col string) string {
 	switch col {
-	case "id", "id2":
+	case "id", "id2", "g", "n":
 		return "int"
 	case "a", "x":
 		return "sint"
-	case "b", "y":
+	case "f":
+		return "flt"
+	case "b", "y", "s", "u":
 		return "str"
 	case "c":
 		return "bool"
@@ -195,6 +206,13 @@ func (c *conc) lit(typ string, v int) string {
 			return "TRUE"
 		}
 		return "FALSE"
+	case "flt": // code = 4 x value
+		return strconv.FormatFloat(float64(v)/4, 'f', 2, 64)
+	case "flt-as-int":
+		if v%4 != 0 {
+			panic("integer literal for a fractional FLOAT code")
+		}
+		return fmt.Sprint(v / 4)
 	}
 	panic("lit " + typ)
 }
@@ -212,6 +230,10 @@ func (c *conc) abs(typ string, raw interface{}) (int, bool) {
 	case "sint":
 		if v, ok := raw.(int64); ok && v%c.scale == 0 {
 			return int(v / c.scale), true
+		}
+	case "flt":
+		if v, ok := raw.(float64); ok && v*4 == float64(int(v*4)) {
+			return int(v * 4), true
 		}
 	case "str":
 		if s, ok := raw.(string); ok {
@@ -262,19 +284,27 @@ func looseNames(col string) string {
 var mirror = map[string]string{"=": "=", "<>": "<>", "<": ">", "<=": ">=", ">": "<", ">=": "<="}
 
 // renderPred renders p; flip writes comparisons as <constant> <op> <column>.
+func litType(p *pred) string {
+	t := colType(p.Col)
+	if p.ILit && t == "flt" {
+		return "flt-as-int"
+	}
+	return t
+}
+
 func renderPred(p *pred, c *conc, nm names, flip bool) string {
 	switch p.K {
 	case "cmp":
 		if flip {
-			return fmt.Sprintf("%s %s %s", c.lit(colType(p.Col), p.V), mirror[p.Op], nm(p.Col))
+			return fmt.Sprintf("%s %s %s", c.lit(litType(p), p.V), mirror[p.Op], nm(p.Col))
 		}
-		return fmt.Sprintf("%s %s %s", nm(p.Col), p.Op, c.lit(colType(p.Col), p.V))
+		return fmt.Sprintf("%s %s %s", nm(p.Col), p.Op, c.lit(litType(p), p.V))
 	case "between":
-		return fmt.Sprintf("%s BETWEEN %s AND %s", nm(p.Col), c.lit(colType(p.Col), p.Lo), c.lit(colType(p.Col), p.Hi))
+		return fmt.Sprintf("%s BETWEEN %s AND %s", nm(p.Col), c.lit(litType(p), p.Lo), c.lit(litType(p), p.Hi))
 	case "in":
 		var vs []string
 		for _, v := range p.Vs {
-			vs = append(vs, c.lit(colType(p.Col), v))
+			vs = append(vs, c.lit(litType(p), v))
 		}
 		not := ""
 		if p.Neg {
@@ -408,8 +438,8 @@ func renderQuery(q *query, c *conc, f form) string {
 		sb.WriteString(strings.Join(cols, ", "))
 	} else {
 		var cols []string
-		if sh.By != "" {
-			cols = append(cols, nm(sh.By))
+		for _, b := range sh.By {
+			cols = append(cols, nm(b))
 		}
 		for _, a := range sh.Aggs {
 			if a[1] == "*" {
@@ -421,9 +451,9 @@ func renderQuery(q *query, c *conc, f form) string {
 		sb.WriteString(strings.Join(cols, ", "))
 	}
 	if f.derived {
-		sb.WriteString(" FROM (SELECT * FROM t1) AS t1")
+		sb.WriteString(" FROM (SELECT * FROM " + q.Tbl + ") AS " + q.Tbl)
 	} else {
-		sb.WriteString(" FROM t1" + useClause(f.useT1))
+		sb.WriteString(" FROM " + q.Tbl + useClause(f.useT1))
 	}
 	wnm := nm
 	if len(q.Join) > 0 {
@@ -440,14 +470,14 @@ func renderQuery(q *query, c *conc, f form) string {
 		}
 		var conds []string
 		for _, on := range j.On {
-			l, r := "t1."+on[0], "t2."+on[1]
+			l, op, r := qualNames(on[0]), on[1], qualNames(on[2])
 			switch f.joinCond {
 			case "hash", "nlh":
-				conds = append(conds, l+" = "+r)
+				conds = append(conds, l+" "+op+" "+r)
 			case "unq":
-				conds = append(conds, l+" = "+on[1])
+				conds = append(conds, l+" "+op+" "+looseNames(on[2]))
 			default:
-				conds = append(conds, r+" = "+l)
+				conds = append(conds, r+" "+mirror[op]+" "+l)
 			}
 		}
 		if f.joinCond == "nl" || f.joinCond == "nlh" {
@@ -462,17 +492,21 @@ func renderQuery(q *query, c *conc, f form) string {
 	}
 	sb.WriteString(renderWhere(q.Where, c, wnm, f))
 	if sh.Kind == "group" {
-		if sh.By != "" {
-			sb.WriteString(" GROUP BY " + nm(sh.By))
+		if len(sh.By) > 0 {
+			var bs []string
+			for _, b := range sh.By {
+				bs = append(bs, nm(b))
+			}
+			sb.WriteString(" GROUP BY " + strings.Join(bs, ", "))
 		}
 		if sh.Having {
 			sb.WriteString(" HAVING COUNT(*) > 1")
 		}
 		switch sh.groupOrd {
 		case 1:
-			sb.WriteString(" ORDER BY " + nm(sh.By))
+			sb.WriteString(" ORDER BY " + nm(sh.By[0]))
 		case 2:
-			sb.WriteString(" ORDER BY " + nm(sh.By) + " DESC")
+			sb.WriteString(" ORDER BY " + nm(sh.By[0]) + " DESC")
 		}
 		return sb.String()
 	}
@@ -482,6 +516,12 @@ func renderQuery(q *query, c *conc, f form) string {
 			k := nm(o.Col)
 			if o.Desc {
 				k += " DESC"
+			}
+			switch o.Nulls {
+			case "first":
+				k += " NULLS FIRST"
+			case "last":
+				k += " NULLS LAST"
 			}
 			ks = append(ks, k)
 		}
@@ -506,8 +546,8 @@ func resultTypes(q *query) []string {
 		}
 		return ts
 	}
-	if sh.By != "" {
-		ts = append(ts, colType(sh.By))
+	for _, b := range sh.By {
+		ts = append(ts, colType(b))
 	}
 	for _, a := range sh.Aggs {
 		switch {
